@@ -270,7 +270,6 @@ func frameCheck(c *Ctx, fc FrameCase, wantLen, wantSum bool) {
 	}
 }
 
-
 // bodyHasPtrParts: the body type selected by the case's key has nested pointer parts.
 func (c *Ctx) bodyHasPtrParts(mc MsgCase) bool {
 	ms := c.sc.Mods[mc.Mod]
